@@ -77,6 +77,11 @@ func scenarios(tier string) []svc.Scenario {
 		{Name: "data-tag-on-two-converters", Converter: true, Program: []string{"import:P1", "addtag:tag/p=cport:1", "addtag:tag/x=cdata.conv:ZZZ or cdata.conv2:FOO1", "converters:tag/p=conv2"}},
 		// a converter on a mark list, the service restarted at every point of the conversion
 		{Name: "restart-converter-on-mark", Converter: true, Workers: 3, Program: []string{"import:P1", "addtag:mark/m=id:0", "converters:mark/m=conv", "restart"}},
+		// the id list of a mark tag is replaced by a query edit (the only way a mark tag gets a tagging job) and
+		// marks are added / removed while that job is in flight
+		// (the streams exist when the service starts: marks on ids that do not exist yet are KF-C16-3's business)
+		{Name: "mark-query-edit-then-mark-edit", Prebuilt: []int{5}, Program: []string{"addtag:mark/m=id:0", "addtag:tag/t=mark:m", "updtag:mark/m=id:1", "markadd:mark/m=2", "markdel:mark/m=1"}},
+		{Name: "mark-query-edit-with-converter", Converter: true, Prebuilt: []int{5}, Program: []string{"addtag:mark/m=id:0", "converters:mark/m=conv", "updtag:mark/m=id:1,2", "markdel:mark/m=1"}},
 		{Name: "two-tags", Program: []string{"addtag:tag/p=cport:1", "addtag:tag/d=cdata:foo3", "import:P1", "import:P3"}},
 	}
 	if tier == "thorough" {
